@@ -298,6 +298,10 @@ def _concrete_items(eng, it, st):
             n = z3.simplify(z3.Length(sq))
             if z3.is_int_value(n):
                 return [SV(z3.simplify(sq[i])) for i in range(n.as_long())]
+            # the path condition may fix the length (e.g. after `a, b = xs`)
+            for k in range(0, 5):
+                if eng.feasible(st, [n == k]) and not eng.feasible(st, [n != k]):
+                    return [SV(z3.simplify(sq[i])) for i in range(k)]
         return None
     if hasattr(it, "__iter__") and eng.all_concrete([it]) and not isinstance(it, (SymIter,)):
         try:
